@@ -53,7 +53,8 @@ def _as_flow_fields(x):
 
     # (an image batch whose channels are vector components; flow fields themselves are left alone: constructing from
     # them without axes falls back to the documented default axes)
-    return FlowFields(x) if (type(x) is ImageBatch and x.ndim >= 4 and x.shape[1] == x.ndim - 2) else x  # (needs one channel per spatial dimension)
+    # (needs one channel per spatial dimension, and at least one entry: the default axes are taken from the first grid)
+    return FlowFields(x) if (type(x) is ImageBatch and x.ndim >= 4 and x.shape[0] > 0 and x.shape[1] == x.ndim - 2) else x
 
 
 def ops():
